@@ -167,11 +167,6 @@ fn compute_block_facts<'ast, 'arena>(
                         note_use(&mut uses, &defs, local, local_start);
                     }
                 }
-                for &local in &summary.transitive_capture_writes {
-                    if facts.locals[local.0 as usize].owner == function {
-                        note_def(&mut defs, local, local_start);
-                    }
-                }
             }
         }
 
@@ -190,15 +185,11 @@ fn apply_op_transfer(
     local_start: u32,
     local_count: u32,
 ) {
+    // Only the statement's own store kills. A callee's capture-write summary is a may-write
+    // set (the callee can return before storing, or store into another activation's slot), so
+    // it must not end the live range of the value currently held by the local.
     for &local in &op.writes {
         clear_local(live, local, local_start);
-    }
-    for &callee in &op.direct_callees {
-        for &local in &summaries[callee.0 as usize].transitive_capture_writes {
-            if facts.locals[local.0 as usize].owner == function {
-                clear_local(live, local, local_start);
-            }
-        }
     }
 
     for &local in &op.reads {
